@@ -343,6 +343,10 @@ KINDS: dict[str, tuple[Expr, bool]] = {
     "ilitst": (("istr", "st"), False),
     "ilitalt": (("choice", ("istr", "ss"), S("x")), False),
     "ilitalt1": (("choice", ("istr", "k"), S("x"), ("istr", "s")), False),
+    # prefix-sharing choices with case-insensitive members (ordered choice must keep its order when squashed)
+    "choiceci": (("choice", A, ("istr", "ab")), False),
+    "choiceci2": (("choice", ("range", "a", "c"), ("istr", "ab"), B), False),
+    "choiceci3": (("choice", ("istr", "a"), S("ab"), ("istr", "abc")), False),
     "range": (("range", "a", "c"), False),
     "any": (("any",), False),
     "digit": (("builtin", "ASCII_DIGIT"), False),
